@@ -96,18 +96,21 @@ def run_core(ctx, prop, need_stats=(), need_shapes=(), sim_cfg="SIM_core", mc_qu
         beh = ctx["replay"]
         nb, gen_s, cached = sum(1 for _ in open(beh)), 0.0, True
     else:
-        procs, num = (8, max(2, int(12 * scale))) if tier == "quick" else (14, max(4, int(260 * scale)))
+        procs, num = (14, max(2, int(16 * scale))) if tier == "quick" else (14, max(4, int(400 * scale)))
         cfgs = sim_cfgs or [sim_cfg]
         beh = os.path.join(vlib.workdir("core"), f"behaviours-{'+'.join(cfgs)}-{tier}-{seed}-{scale}.ndjson")
-        nb, gen_s, cached = 0, 0.0, True
-        parts = []
+        import re as _re
+        parts, jobs = [], []
+        per = max(2, procs // len(cfgs))
         for c in cfgs:
-            part = os.path.join(vlib.workdir("core"), f"behaviours-{c}-{tier}-{seed}-{scale}-{len(cfgs)}.ndjson")
-            import re as _re
             depth = int(_re.search(r"Depth = (\d+)", open(os.path.join(vlib.SPEC, c + ".cfg")).read()).group(1))
-            n1, g1, c1 = gen_behaviours(c, "MC_core", part, max(2, procs // len(cfgs)), num, depth, seed, timeout=600 if tier == "quick" else 3000)
-            nb += n1; gen_s += g1; cached = cached and c1
+            part = os.path.join(vlib.workdir("core"), f"behaviours-{c}-{tier}-{seed}-{scale}-{len(cfgs)}.ndjson")
             parts.append(part)
+            jobs.append((c, part, per, num, depth))
+        # all configurations are generated concurrently (each with its own TLC processes)
+        with cf.ThreadPoolExecutor(max_workers=len(jobs)) as ex:
+            outs = list(ex.map(lambda j: gen_behaviours(j[0], "MC_core", j[1], j[2], j[3], j[4], seed, timeout=600 if tier == "quick" else 3000), jobs))
+        nb = sum(o[0] for o in outs); gen_s = max(o[1] for o in outs); cached = all(o[2] for o in outs)
         with open(beh, "w") as f:
             for part in parts:
                 f.write(open(part).read())
@@ -128,10 +131,25 @@ def run_core(ctx, prop, need_stats=(), need_shapes=(), sim_cfg="SIM_core", mc_qu
             for k, v in s1["stats"].items(): summ["stats"][k] = summ["stats"].get(k, 0) + v
             for k, v in s1["configs"].items(): summ["configs"][k + "".join(flags)] = v
             summ["violations"] += s1["violations"]
+    # Every divergence between the specification's behaviour and the implementation found while replaying this
+    # property's behaviours is reported: the property is decided through the specification, and a step where the
+    # code leaves it invalidates the run whatever oracle noticed it first (native attribution kept in the text).
     for v in summ["violations"]:
-        if prop in v["props"]:
-            violations.append({"key": f"{v['kind']}", "what": v["what"], "replay": v.get("replay")})
+        tag = "" if prop in v["props"] else f" [oracle of {'/'.join(v['props'])}]"
+        violations.append({"key": f"{v['kind']}", "what": v["what"] + tag, "replay": v.get("replay")})
     others = [v for v in summ["violations"] if prop not in v["props"]]
+    # named deviations (known findings the model follows, MlsGroup.tla Deviations): steps of the replayed
+    # behaviours that exercised one are reported by the check of the property the finding belongs to
+    import re as _re2
+    dev_steps = {}
+    for line in open(beh):
+        for st in json.loads(line)["steps"]:
+            m = _re2.search(r":(F\d+)$", st["res"])
+            if m:
+                dev_steps[m.group(1)] = dev_steps.get(m.group(1), 0) + 1
+    for k in vlib.known_findings().get("known", []):
+        if k.get("property") == prop and dev_steps.get(k["key"], 0) > 0:
+            violations.append({"key": k["key"], "what": k["what"], "replay": os.path.join(vlib.VERIF, k.get("replay", ""))})
     # --- 4. vacuity guards: the mechanism behind the property must have been exercised
     for k in need_stats:
         if not any(s.startswith(k) and n > 0 for s, n in summ["stats"].items()):
@@ -153,7 +171,7 @@ def run_core(ctx, prop, need_stats=(), need_shapes=(), sim_cfg="SIM_core", mc_qu
         "behaviour_shapes": shapes, "replay_stats": summ["stats"], "replay_configs": summ["configs"],
         "violations_attributed_to_other_properties": [{"props": v["props"], "kind": v["kind"], "what": v["what"][:200]} for v in others[:5]],
         "invariants": invariants_note, "shapes_not_reached_this_run": vac,
-        "tlc_sim_wall_s": round(gen_s, 1), "behaviours_cached": cached,
+        "tlc_sim_wall_s": round(gen_s, 1), "behaviours_cached": cached, "named_deviation_steps": dev_steps,
     }
     return {"level": level, "coverage": cov, "violations": violations,
             "assumptions": ["symbolic (Dolev-Yao) cryptography in the model", "bounded instance for exhaustive checking; larger instances sampled by simulation",
